@@ -5,6 +5,7 @@ import (
 	"fmt"
 	"io"
 	"math/big"
+	"os"
 	"os/exec"
 	"sort"
 	"strings"
@@ -24,15 +25,21 @@ func (r Result) String() string {
 }
 
 type Stats struct {
-	Queries  int
-	Sat      int
-	Unsat    int
-	Unknown  int
-	Errors   int
-	Time     time.Duration
-	LastErr  string
-	MaxQuery time.Duration
+	Queries   int
+	Sat       int
+	Unsat     int
+	Unknown   int
+	Errors    int
+	Time      time.Duration
+	LastErr   string
+	MaxQuery  time.Duration
 	Fallbacks int
+	// second-opinion cross-check of unsat verdicts (see Solver.XEvery)
+	XChecked  int // unsat verdicts of the primary solver re-decided by an independent solver
+	XAgree    int // ... and confirmed unsat
+	XDisagree int // ... answered sat by the second solver (the verdict is then treated as sat and its model replayed)
+	XUnknown  int // ... second solver gave no answer within its limit
+	XTime     time.Duration
 }
 
 func (a *Stats) AddStats(b Stats) {
@@ -42,6 +49,11 @@ func (a *Stats) AddStats(b Stats) {
 	a.Unknown += b.Unknown
 	a.Errors += b.Errors
 	a.Fallbacks += b.Fallbacks
+	a.XChecked += b.XChecked
+	a.XAgree += b.XAgree
+	a.XDisagree += b.XDisagree
+	a.XUnknown += b.XUnknown
+	a.XTime += b.XTime
 	a.Time += b.Time
 	if b.LastErr != "" {
 		a.LastErr = b.LastErr
@@ -53,19 +65,28 @@ func (a *Stats) AddStats(b Stats) {
 
 // Solver is one long-lived solver process driven over a pipe.
 type Solver struct {
-	Kind   string
-	cmd    *exec.Cmd
-	in     *bufio.Writer
-	out    *bufio.Reader
-	inRaw  io.WriteCloser
-	levels [][]string // variables declared per push level
-	text   [][]string // commands sent per push level (for the fallback solver)
-	fbModel map[string]*big.Int
-	Fallback string // "" or "cvc5": one-shot second solver tried when the primary answers unknown
+	Kind         string
+	cmd          *exec.Cmd
+	in           *bufio.Writer
+	out          *bufio.Reader
+	inRaw        io.WriteCloser
+	levels       [][]string // variables declared per push level
+	text         [][]string // commands sent per push level (for the fallback solver)
+	fbModel      map[string]*big.Int
+	Fallback     string // "" or "cvc5": one-shot second solver tried when the primary answers unknown
 	FallbackUsed int
-	decl   map[string]Sort
-	Stats  Stats
-	Log    io.Writer // optional transcript
+	// XEvery > 0: every XEvery-th unsat verdict of the primary solver (up to XMax per
+	// solver process) is re-decided one-shot by an independent solver, alternating
+	// between cvc5 and z3-new (5.1.0). A disagreement turns the verdict into sat with
+	// the second solver's model, so the path is explored / the model replayed natively.
+	XEvery      int
+	XMax        int
+	xCounter    int
+	lastOneShot string
+	XNotes      []string
+	decl        map[string]Sort
+	Stats       Stats
+	Log         io.Writer // optional transcript
 }
 
 // NewSolver starts kind = "z3" | "z3-new" | "cvc5". timeoutMs bounds each query.
@@ -239,6 +260,11 @@ func (s *Solver) Check() Result {
 	s.fbModel = nil
 	if res == Unknown && s.Fallback != "" {
 		res = s.fallbackCheck()
+	} else if res == Unsat && s.XEvery > 0 && s.Stats.XChecked < s.XMax {
+		s.xCounter++
+		if s.xCounter%s.XEvery == 0 {
+			res = s.crossCheck()
+		}
 	}
 	d := time.Since(t0)
 	if s.Log != nil {
@@ -275,10 +301,52 @@ func (s *Solver) CheckWith(t *Term, keepOnSat bool) Result {
 	return r
 }
 
+// crossCheck re-decides a stack the primary solver found unsat with an independent
+// solver. Only a definite sat changes the verdict.
+func (s *Solver) crossCheck() Result {
+	t0 := time.Now()
+	second := "cvc5"
+	if s.Stats.XChecked%2 == 1 {
+		second = "z3-new"
+	}
+	s.Stats.XChecked++
+	r := s.oneShot(second)
+	s.Stats.XTime += time.Since(t0)
+	switch r {
+	case Unsat:
+		s.Stats.XAgree++
+		return Unsat
+	case Sat:
+		s.Stats.XDisagree++
+		if len(s.XNotes) < 5 {
+			s.XNotes = append(s.XNotes, fmt.Sprintf("%s answers sat where %s answered unsat (stack of %d levels)", second, s.Kind, len(s.text)))
+		}
+		return Sat
+	}
+	s.fbModel = nil
+	s.Stats.XUnknown++
+	if d := os.Getenv("VERIF_XCHECK_DUMP"); d != "" && s.Stats.XUnknown <= 2 {
+		os.WriteFile(fmt.Sprintf("%s/xunknown-%s-%d-%d.smt2", d, second, os.Getpid(), s.Stats.XChecked), []byte(s.lastOneShot), 0o644)
+	}
+	return Unsat
+}
+
 // fallbackCheck re-decides the current stack with a one-shot second solver.
 func (s *Solver) fallbackCheck() Result {
+	s.FallbackUsed++
+	s.Stats.Fallbacks++
+	return s.oneShot(s.Fallback)
+}
+
+func (s *Solver) oneShot(solver string) Result {
 	var sb strings.Builder
-	sb.WriteString("(set-logic ALL)\n(set-option :produce-models true)\n")
+	if solver == "cvc5" {
+		// only Int and Bool constants are ever declared; under ALL cvc5 reserves
+		// identifiers of other theories (a variable called `char` is rejected)
+		sb.WriteString("(set-logic QF_NIA)\n(set-option :produce-models true)\n")
+	} else {
+		sb.WriteString("(set-logic ALL)\n(set-option :produce-models true)\n")
+	}
 	for _, lvl := range s.text {
 		for _, l := range lvl {
 			sb.WriteString(l)
@@ -294,11 +362,15 @@ func (s *Solver) fallbackCheck() Result {
 	if len(names) > 0 {
 		sb.WriteString("(get-value (" + strings.Join(names, " ") + "))\n")
 	}
-	cmd := exec.Command(s.Fallback, "--lang=smt2", "--tlimit=30000")
+	var cmd *exec.Cmd
+	if solver == "cvc5" {
+		cmd = exec.Command("cvc5", "--lang=smt2", "--tlimit=30000")
+	} else {
+		cmd = exec.Command(solver, "-in", "-T:30")
+	}
 	cmd.Stdin = strings.NewReader(sb.String())
 	out, _ := cmd.CombinedOutput()
-	s.FallbackUsed++
-	s.Stats.Fallbacks++
+	s.lastOneShot = sb.String() + "; answer:\n; " + strings.ReplaceAll(string(out), "\n", "\n; ")
 	txt := string(out)
 	first := strings.TrimSpace(txt)
 	if i := strings.IndexByte(first, '\n'); i >= 0 {
@@ -306,9 +378,8 @@ func (s *Solver) fallbackCheck() Result {
 	}
 	switch strings.TrimSpace(first) {
 	case "unsat":
-		if strings.Contains(txt, "(error") && !strings.Contains(txt, "cannot get value") && !strings.Contains(txt, "Cannot get") {
-			return Unknown
-		}
+		// the verdict is the first line, so no error line precedes it (an error about an
+		// assertion would); what follows is only get-value complaining that there is no model
 		return Unsat
 	case "sat":
 		rest := txt[strings.Index(txt, "sat")+3:]
